@@ -72,6 +72,11 @@ func (ch *chain) paramsAt(h int64) *consensusGenesis.Parameters {
 func buildChain(rng *rand.Rand, n int) (*chain, error) {
 	const nvals = 4
 	ch := &chain{chainID: fmt.Sprintf("verif-synth-%d", rng.IntN(1_000_000)), first: 1000 + rng.Int64N(1000), hs: map[int64]*chainHeight{}}
+	// Realistic heights: mainnet is in the tens of millions (every other chain; decided from the
+	// chain id draw, no further PRNG draw).
+	if len(ch.chainID)%2 == 0 {
+		ch.first += 25_000_000
+	}
 	ch.tip = ch.first + int64(n) - 1
 	pvs := map[string]cmttypes.PrivValidator{}
 	var pubs []cmttypes.PrivValidator
